@@ -58,6 +58,9 @@ enum ExecutionSignal {
 
   /// A runtime error occurred and we need to unwind the stack
   RuntimeError,
+
+  /// An imported module failed to compile and we need to exit the program
+  CompileError,
 }
 
 #[derive(Debug, Clone, PartialEq, Eq)]
@@ -464,6 +467,9 @@ impl Vm {
           },
           ExecutionSignal::Exit => {
             return ExecutionResult::Exit(self.exit_code);
+          },
+          ExecutionSignal::CompileError => {
+            return ExecutionResult::CompileError;
           },
         }
       }
